@@ -455,7 +455,8 @@ def gen_exhaustive(ctx, cfg):
             behaviours.append(Beh(h, sts, obs, "after every step"))
         if len(h) >= 2:
             behaviours.append(Beh(h, sts, obs_last(len(h)), "only after the last step"))
-    return uni, states, behaviours, dict(histories=len(by_h), maxlen=maxlen, tlc_states=res.distinct)
+    return uni, states, behaviours, dict(histories=len(by_h), maxlen=maxlen, tlc_states=res.distinct,
+                                         step_kinds=step_kinds(behaviours))
 
 
 def gen_walks(ctx, cfg, num, seed=None):
@@ -489,7 +490,31 @@ def gen_walks(ctx, cfg, num, seed=None):
         behaviours.append(Beh(h, sts, obs_all(n), "after every step"))
         behaviours.append(Beh(h, sts, obs_last(n), "only after the last step"))
         behaviours.append(Beh(h, sts, mask, "after a random subset of the steps"))
-    return uni, states, behaviours, dict(histories=len(seen), maxlen=depth)
+    return uni, states, behaviours, dict(histories=len(seen), maxlen=depth, step_kinds=step_kinds(behaviours[::3]))
+
+
+def step_kinds(behaviours):
+    """How often each kind of step occurs in the generated histories (vacuity evidence).  The kinds are read off
+    the abstract states TLC printed: an AddDoc on a live id is a replacement, a RemoveDoc on an absent id a no-op."""
+    c = {}
+    seen = set()
+    for b in behaviours:
+        if id(b.steps) in seen:
+            continue
+        seen.add(id(b.steps))
+        for k, op in enumerate(b.steps):
+            kind = op["op"]
+            prev = b.states[k - 1][1] if k > 0 else dict(fields=[], docs={})
+            if prev is None:
+                continue
+            if kind == "AddDoc":
+                kind = "AddDoc(replace)" if op["d"] in prev["docs"] else "AddDoc(insert)"
+            elif kind == "RemoveDoc":
+                kind = "RemoveDoc(live)" if op["d"] in prev["docs"] else "RemoveDoc(absent)"
+            elif kind == "RemoveField":
+                kind = "RemoveField(carried)" if any(op["f"] in v for v in prev["docs"].values()) else "RemoveField(unused)"
+            c[kind] = c.get(kind, 0) + 1
+    return c
 
 
 def uni_norm(u):
